@@ -203,7 +203,7 @@ class _Res:
 
 REPO_TEST_FILES = ["tests/test_sequence.py", "tests/test_eom.py", "tests/test_dmm.py",
                    "tests/test_sequence_sampler.py", "tests/test_abstract_repr.py", "tests/test_json.py",
-                   "tests/test_paramseq.py", "tests/test_simulation.py"]
+                   "tests/test_paramseq.py", "tests/pulser_simulation/test_simulation.py"]
 
 
 class _RecCfg:
@@ -240,7 +240,13 @@ def run_recorded(prop, preds):
         cmd = ["/venv/bin/python", "-m", "pytest", *REPO_TEST_FILES, "-q", "-p", "harness.pytest_recorder",
                "-p", "no:cacheprovider", "-n", "12", "-x", "--timeout=900"]
         pr = subprocess.run(cmd, cwd=REPO, env=env, capture_output=True, text=True)
+        if not glob.glob(rep + ".*"):
+            # nothing was recorded (worker start-up failure under load, ...): once more, fewer workers
+            cmd[cmd.index("-n") + 1] = "4"
+            pr = subprocess.run(cmd, cwd=REPO, env=env, capture_output=True, text=True)
         tail = pr.stdout.strip().split("\n")[-1] if pr.stdout else ""
+        if not glob.glob(rep + ".*"):
+            tail += " | " + " ".join((pr.stdout + pr.stderr).strip().split("\n")[-12:])[-900:]
         tot = {"traces": 0, "lines": 0, "tlc_states": 0, "sequences_seen": 0}
         reports, errors, samples, dead, ops = [], [], [], {}, {}
         for f in glob.glob(rep + ".*"):
